@@ -1,11 +1,34 @@
 (* C14: what the regenerated definitions of Gen/GenC14.v need to exist beforehand.
    [aou] stands for pyproj's AreaOfUse as returned by DynamicAreaDefinition._get_crs_area_of_use
    (an oracle value: only west/east are consulted by the code). *)
-From Coq Require Import ZArith.
+From Coq Require Import ZArith List.
 From PR Require Import Base.Num.
+Import ListNotations.
 
 Record aou_t (T : Type) := mk_aou { aou_west : T; aou_east : T }.
 Arguments mk_aou {T}. Arguments aou_west {T}. Arguments aou_east {T}.
 
 (* self._get_crs_area_of_use(projection): in the model the projection argument IS its area of use *)
 Definition aou_of {T} (a : aou_t T) : aou_t T := a.
+
+(* crs.is_geographic (PROJ oracle) as consulted by _compute_bound_centers *)
+Record crs_t := mk_crs { crs_geo : bool }.
+
+(* np.nanmin / np.nanmax over a float array seen as a list: NaNs ignored; NaN when nothing is left *)
+Section NanMinMax.
+  Context {T : Type} (OP : ops T).
+  Fixpoint nanmin_o (l : list T) : option T :=
+    match l with
+    | [] => None
+    | x :: r => let m := nanmin_o r in
+                if isnan OP x then m else match m with None => Some x | Some y => Some (if ltb OP y x then y else x) end
+    end.
+  Fixpoint nanmax_o (l : list T) : option T :=
+    match l with
+    | [] => None
+    | x :: r => let m := nanmax_o r in
+                if isnan OP x then m else match m with None => Some x | Some y => Some (if ltb OP x y then y else x) end
+    end.
+  Definition nanmin (l : list T) : T := match nanmin_o l with Some v => v | None => nan OP end.
+  Definition nanmax (l : list T) : T := match nanmax_o l with Some v => v | None => nan OP end.
+End NanMinMax.
